@@ -553,6 +553,13 @@ class BreakStmt:
 
 
 @dataclass
+class ContinueStmt:
+    """A ``continue`` statement starting the next iteration of the innermost loop."""
+
+    pass
+
+
+@dataclass
 class CatchClause:
     """A ``catch`` clause attached to a :class:`TryStatement`."""
 
